@@ -1,10 +1,12 @@
 /- Line-protocol driver for the C14 model (ForML.Model.PushDown).
 
-  (hints strict|lenient <source>)            -> (ok (scan <table> (<col>*) (<factor>*))*) | (error <Err>)
-  (needs <source>)                           -> (ok (<col>*)*)        spec: columns each scan must offer
+  variant ::= current | fixed     the code that exists / as repaired by fixes/C14-outer-join-and-scan-segments.diff
+  (hints <variant> strict|lenient <source>)  -> (ok (scan <table> (<col>*) (<factor>*))*) | (error <Err>)
+  (needs <source>)                           -> (ok (<col>*)*)        spec: columns each scan must offer (path-based)
+  (uses <source>)                            -> (ok (<col>*)*)        spec: columns each scan's origin is used with anywhere
   (lazy <source>)                            -> (ok (<table> <col>)*)  columns lazy._Columns extracts
-  (scoped <source>)                          -> (ok <innerOnly> <wellScoped> <outerSafe> <shaped>)
-  (exec ignore|rows|cols|both <source> <db>) -> (ok (<val>*)*)        rows of the statement over a back-end (simpleSem)
+  (scoped <source>)                          -> (ok <innerOnly> <safe current> <grammarScoped> <shaped> <safe fixed>)
+  (exec <variant> ignore|rows|cols|both <source> <db>) -> (ok (<val>*)*)   rows of the statement over a back-end (simpleSem)
        db  ::= ((<table> (<col>*) ((<val>*)*))*)      val ::= null | <int> | true | false
   a line may be wrapped in (let ((x e)*) body), see ForML.Model.Dsl
 -/
@@ -27,6 +29,11 @@ def hintSexp (h : Hint) : Sexp :=
 def mode? : Sexp → Option Bool
   | .atom "strict" => some false
   | .atom "lenient" => some true
+  | _ => none
+
+def variant? : Sexp → Option Bool
+  | .atom "current" => some false
+  | .atom "fixed" => some true
   | _ => none
 
 def backend? : Sexp → Option Backend
@@ -67,16 +74,20 @@ def stepC14 (line : Sexp) : Sexp :=
   | some x =>
     if hasAtom "window" x then .atom "bad-op" else
     match x with
-    | .list [.atom "hints", m, s] =>
-      match mode? m, Source.ofSexp s with
-      | some len, some src =>
-        match hints len src with
+    | .list [.atom "hints", v, m, s] =>
+      match variant? v, mode? m, Source.ofSexp s with
+      | some fix, some len, some src =>
+        match hints fix len src with
         | .ok hs => .list (.atom "ok" :: hs.map hintSexp)
         | .error e => .list [.atom "error", .atom e.wire]
-      | _, _ => .atom "bad-op"
+      | _, _, _ => .atom "bad-op"
     | .list [.atom "needs", s] =>
       match Source.ofSexp s with
       | some src => .list (.atom "ok" :: (needs [] src).map (fun cs => .list (cs.map .atom)))
+      | none => .atom "bad-op"
+    | .list [.atom "uses", s] =>
+      match Source.ofSexp s with
+      | some src => .list (.atom "ok" :: (usesIn [] src).map (fun cs => .list (cs.map .atom)))
       | none => .atom "bad-op"
     | .list [.atom "lazy", s] =>
       match Source.ofSexp s with
@@ -84,14 +95,14 @@ def stepC14 (line : Sexp) : Sexp :=
       | none => .atom "bad-op"
     | .list [.atom "scoped", s] =>
       match Source.ofSexp s with
-      | some src => .list [.atom "ok", Sexp.ofBool (innerOnly src), Sexp.ofBool (wellScoped src),
-          Sexp.ofBool (outerSafe true [] src), Sexp.ofBool (shaped src)]
+      | some src => .list [.atom "ok", Sexp.ofBool (innerOnly src), Sexp.ofBool (safe false true [] [] src),
+          Sexp.ofBool (grammarScoped src), Sexp.ofBool (shaped src), Sexp.ofBool (safe true true [] [] src)]
       | none => .atom "bad-op"
-    | .list [.atom "exec", b, s, .list db] =>
-      match backend? b, Source.ofSexp s, db.mapM tableData? with
-      | some be, some src, some ts =>
-        .list (.atom "ok" :: (result true simpleSem be (dbOf ts) src).map (fun r => .list (r.map (fun kv => valSexp kv.2))))
-      | _, _, _ => .atom "bad-op"
+    | .list [.atom "exec", v, b, s, .list db] =>
+      match variant? v, backend? b, Source.ofSexp s, db.mapM tableData? with
+      | some fix, some be, some src, some ts =>
+        .list (.atom "ok" :: (result fix true simpleSem be (dbOf ts) src).map (fun r => .list (r.map (fun kv => valSexp kv.2))))
+      | _, _, _, _ => .atom "bad-op"
     | _ => .atom "bad-op"
 
 def main : IO Unit := driverLoop stepC14
